@@ -24,7 +24,7 @@ def run(v, workdir, replay):
     v.need("deposit_from:bridge_transfer", 3)
     v.need("withdrawals_honoured", 30)
     v.need("failed_executions_touching_bridge", 20)
-    v.need("event_id_reuse_attempts", 5)
+    v.need("event_id_reuse_attempts", 3)
 
 
 def check(v, hists):
@@ -70,6 +70,10 @@ def check(v, hists):
                 credited = act.get((bridge, asset), 0)
                 # the same bridge may also pay out in the same bundle; count explicit debits back in
                 debits = sum(int(a["amount"]) for a in acts if a["kind"] in ("bridge_unlock", "bridge_transfer") and a.get("bridge") == bridge)
+                debits += sum(int(a["amount"]) for a in acts if a["kind"] == "ics20_withdrawal" and a.get("bridge") == bridge)
+                # plain transfers to a bridge account credit it without a deposit (allowed); they are not backing
+                plain_in = sum(int(a["amount"]) for a in acts if a["kind"] == "transfer" and a.get("to") == bridge and a.get("asset") == asset)
+                credited -= plain_in
                 if credited + debits != amount:
                     v.violate("C04/deposit-not-backed-by-equal-credit", "deposits of %d to bridge %s but the bridge account was credited %d in the same transaction" % (amount, bridge, credited + debits), wit)
             if len(dep_events) != len(new_deps):
